@@ -564,6 +564,30 @@ def run_current_rule(acc):
                                 '%r is being enforced' % (cur, name), case,
                                 name, cur, 'S4')
                     acc.outcome('cr-%s' % kind)
+                    # the same policy handed to enforce() as a check OBJECT
+                    # (a reference to it): no policy name is being enforced,
+                    # so a name-aware check is told None - not an alias name
+                    if kind in ('vrec4', 'vrec4n', 'vduck4') and depth >= 1:
+                        from oslo_policy import _parser
+                        del RECORD[:]
+                        acc.ev()
+                        got_o = world.decide(
+                            enf, _parser.parse_rule('rule:%s' % name), {},
+                            {'roles': []})
+                        if got_o != ('ok', exp):
+                            acc.violation(
+                                'S4|object|decision|%s' % kind,
+                                'enforce(<rule:%s>) gives %r, enforce(%r) '
+                                'gives %r' % (name, got_o, name, exp), case,
+                                exp, got_o, 'S4')
+                        for k, m, cur in RECORD:
+                            if cur is not None:
+                                acc.violation(
+                                    'S4|object|current_rule|%s' % kind,
+                                    'enforce() was given a check object, '
+                                    'yet the nested check was told '
+                                    'current_rule=%r' % (cur,), case, None,
+                                    cur, 'S4')
         acc.sample('S4', rules)
     # an UNDEFINED reference falls back to the default rule: the checks in the
     # default's body are still told the enforced policy name
